@@ -262,7 +262,9 @@ class Derivative(_Limit):
         method, n, order = self.method, self.n, self.method_order
         # pylint: disable=no-member
         step_gen = self.step.step_generator_function(x_i, method, n, order)
-        return list(step_gen()), step_gen.step_ratio
+        steps = list(step_gen())
+        _assert(len(steps) > 0, 'The step generator produced no steps (steps that are zero are dropped): the step is too small!')
+        return steps, step_gen.step_ratio
 
     def _raise_error_if_any_is_complex(self, x, f_x):
         msg = ('The {} step derivative method does only work on a real valued analytic '
